@@ -862,6 +862,10 @@ func AdoptSession(p Persistence, c *Config) (client *Client, warn []error, fatal
 		}
 
 		packet, storageSeqNo, err := decodeValue(value)
+		if err == nil && len(packet) == 0 {
+			// intact by checksum, yet no use
+			err = errors.New("mqtt: persisted value holds no packet")
+		}
 		if err != nil {
 			delErr := p.Delete(key)
 			if delErr != nil {
